@@ -17,6 +17,11 @@ abbrev forFrom {S : Type} (lo hi : Nat) (body : Nat → S → S) (s : S) : S :=
 abbrev forList {S : Type} (l : List Nat) (body : Nat → S → S) (s : S) : S :=
   l.foldl (fun s i => body i s) s
 
+/-- `while (c) body`, given a bound on the number of passes (the caller says why the bound suffices) -/
+def whileFuel {S : Type} : Nat → (S → Bool) → (S → S) → S → S
+  | 0, _, _, s => s
+  | n + 1, c, body, s => if c s then whileFuel n c body (body s) else s
+
 /-- `M(i,k) = x` -/
 def setAt2 {α : Type} (f : Nat → Nat → α) (i k : Nat) (x : α) : Nat → Nat → α :=
   fun i' k' => if i' = i ∧ k' = k then x else f i' k'
